@@ -258,6 +258,7 @@ type FilePres struct {
 	Store           bool   // zip method Store instead of Deflate
 	OmitIfEmpty     bool   // optional file with no rows is left out of the archive
 	ZeroBytes       bool   // optional file with no rows is present as a zero-byte member (a parser may reject such an archive)
+	PadTo           int    // when > 0 the member is padded, through the name of one more unknown column, to exactly this many bytes (if it is smaller)
 	BlankLinesAfter []int  // emit an empty line after these row indices (-1 = after the header); only for files with >= 2 columns
 }
 
@@ -283,6 +284,23 @@ func quote(s string) string {
 
 // RenderCSV writes one table under a presentation.
 func RenderCSV(t *Table, p FilePres) []byte {
+	if p.PadTo > 0 {
+		q := p
+		q.PadTo = 0
+		q.Extra = append(append([]ExtraCol(nil), p.Extra...), ExtraCol{Name: "pad_"})
+		if len(q.ColOrder) > 0 {
+			q.ColOrder = append(append([]int(nil), p.ColOrder...), len(p.ColOrder)) // the padding column goes last
+		}
+		base := renderCSV(t, q)
+		if len(base) <= p.PadTo {
+			q.Extra[len(q.Extra)-1].Name = "pad_" + strings.Repeat("x", p.PadTo-len(base))
+			return renderCSV(t, q)
+		}
+	}
+	return renderCSV(t, p)
+}
+
+func renderCSV(t *Table, p FilePres) []byte {
 	header := append([]string(nil), t.Header...)
 	rows := make([][]string, len(t.Rows))
 	for i, r := range t.Rows {
